@@ -8,11 +8,13 @@
 (*              on the number of reads.  The driver replays every case     *)
 (*              into the real filters.                                     *)
 (*  JudgeSpec - judge of recorded executions.  IOEnv.TRACE_FILE holds      *)
-(*              [c |-> case, reads |-> <<output of 1st filter() call,      *)
-(*              2nd call, ...>>] recorded from the real filters (30-bit    *)
-(*              directed seeds; Reservoir's Algorithm L branch, which the  *)
-(*              spec constrains but does not compute).  A record is        *)
-(*              accepted iff Read explains every recorded output.          *)
+(*              [c |-> case, apps |-> <<[inp, out] of the 1st filter()     *)
+(*              call, of the 2nd call, ...>>] recorded from ONE real       *)
+(*              filter object applied to its first input, to a second,     *)
+(*              different input, to the first again, and from a fresh      *)
+(*              object (30-bit directed seeds; Reservoir's Algorithm L     *)
+(*              branch, which the spec constrains but does not compute).   *)
+(*              A record is accepted iff Read explains every application.  *)
 (***************************************************************************)
 EXTENDS SeqFilters, Json, IOUtils
 CONSTANTS Fams,        \* which case families this run generates
@@ -25,7 +27,7 @@ CONSTANTS Fams,        \* which case families this run generates
           SortL,       \* longest input for Sort
           MaxReads
 VARIABLE tid
-mvars == <<case, reads, out, tid>>
+mvars == <<case, reads, out, seen, tid>>
 
 (* Python's text of the double s * 3.21 for s = 0..31 (the driver re-computes and compares this table at start-up) *)
 FText == <<
@@ -124,19 +126,22 @@ GenCase ==
         \/ \E cs \in SeqsUpTo(SparseCtxs, SortL) : \E ks \in SparseKeys :
              case = [f |-> "sort", p |-> [keys |-> ks], inp |-> [t |-> "sparse", ctxs |-> cs]]
 
-GenInit == reads = 0 /\ out = <<>> /\ tid = 0 /\ GenCase
-GenNext == reads < MaxReads /\ Exact(case) /\ Read(Result(case)) /\ UNCHANGED tid
+GenInit == reads = 0 /\ out = <<>> /\ seen = <<>> /\ tid = 0 /\ GenCase
+GenNext == reads < MaxReads /\ Exact(case) /\ Read(case.inp, Result(case)) /\ UNCHANGED tid
 GenSpec == GenInit /\ [][GenNext]_mvars
 Emit == reads = 1 => PrintT(ToJson([f |-> case.f, p |-> case.p, inp |-> case.inp, out |-> out]))
 
 Traces == JsonDeserialize(IOEnv.TRACE_FILE)
-JudgeInit == tid \in 1..Len(Traces) /\ case = Traces[tid].c /\ reads = 0 /\ out = <<>>
-JudgeNext == /\ reads < Len(Traces[tid].reads)
-             /\ Read(Traces[tid].reads[reads + 1])
+Apps == Traces[tid].apps        \* <<[inp, out], ...>>: every application of ONE object (and of a fresh object with the same parameters)
+JudgeInit == tid \in 1..Len(Traces) /\ case = Traces[tid].c /\ reads = 0 /\ out = <<>> /\ seen = <<>>
+JudgeNext == /\ reads < Len(Apps)
+             /\ Read(Apps[reads + 1].inp, Apps[reads + 1].out)
              /\ UNCHANGED tid
 JudgeSpec == JudgeInit /\ [][JudgeNext]_mvars
-Accept == (tid > 0 /\ reads = Len(Traces[tid].reads)) => PrintT(ToJson([acc |-> tid]))
-(* for the report on a rejected record: what the specification demands *)
+Accept == (tid > 0 /\ reads = Len(Apps)) => PrintT(ToJson([acc |-> tid]))
+(* for the report on a rejected record: what the specification demands for every application *)
+AppCase(i) == [f |-> case.f, p |-> case.p, inp |-> Apps[i].inp]
 Explain == (tid > 0 /\ reads = 0) =>
-   PrintT(ToJson([tid |-> tid, exact |-> Exact(case), expected |-> IF Exact(case) THEN Result(case) ELSE <<>>]))
+   PrintT(ToJson([tid |-> tid, exact |-> [i \in DOMAIN Apps |-> Exact(AppCase(i))],
+                  expected |-> [i \in DOMAIN Apps |-> IF Exact(AppCase(i)) THEN Result(AppCase(i)) ELSE <<>>]]))
 =============================================================================
